@@ -23,22 +23,32 @@ inductive Err where
   | keyError     -- a leaf whose taxon (or `None`) is not a key of the map
   | valueError   -- `left_c, right_c = c[:2]` on a node with one child
   | attrError    -- a child without stored sets (cannot happen in a post-order pass; kept total)
+  | indexError   -- `weights[n]` with `n >= len(weights)`, evaluated only when character `n` changes at this pair
 deriving DecidableEq, Repr
 
 def Err.name : Err → String
   | .keyError => "KeyError"
   | .valueError => "ValueError"
   | .attrError => "AttributeError"
+  | .indexError => "IndexError"
 
 /-- one character at one (left, right) pair: the intersection if non-empty (no change), else the union (one change) -/
 def comb (a b : SS) : SS × Nat := if a &&& b != 0 then (a &&& b, 0) else (a ||| b, 1)
 
 /-- `for n, ssp in enumerate(zip(left_ssl, right_ssl))`: new list of sets and the weighted cost added per character.
-    `ws` is the weight list from position `n` on (`weights is None` ⇒ all 1, supplied by the caller) -/
+    `ws` is the weight list from position `n` on (`weights is None` ⇒ all 1, supplied by the caller).  `zip` ends at the
+    shorter of the two set lists; the weight list does not end the loop (a position past its end is looked up only
+    when that character changes, which `shortHit` reports first; the `0` is never used then). -/
 def pairLoop : List Nat → Row → Row → Row × List Nat
-  | w :: ws, a :: l, b :: r =>
-    ((comb a b).1 :: (pairLoop ws l r).1, (w * (comb a b).2) :: (pairLoop ws l r).2)
+  | ws, a :: l, b :: r =>
+    ((comb a b).1 :: (pairLoop ws.tail l r).1, (ws.headD 0 * (comb a b).2) :: (pairLoop ws.tail l r).2)
   | _, _, _ => ([], [])
+
+/-- does `wt = weights[n]` raise IndexError at this pair: some character at a position past the end of the weight
+    list changes -/
+def shortHit : List Nat → Row → Row → Bool
+  | ws, a :: l, b :: r => (ws.isEmpty && (comb a b).2 != 0) || shortHit ws.tail l r
+  | _, _, _ => false
 
 def sumL : List Nat → Nat
   | [] => 0
@@ -72,6 +82,7 @@ def foldKids (ws : List Nat) (attrs : Attrs) : Row → List T → Nat → List N
     match getAttr attrs c.id with
     | none => .error .attrError
     | some right =>
+      if shortHit ws left right then .error .indexError else
       foldKids ws attrs (pairLoop ws left right).1 rest (sc + sumL (pairLoop ws left right).2)
         (addL bc (pairLoop ws left right).2)
 
